@@ -74,6 +74,104 @@ func ruleSibling(p *Prog, r *Report, pkg, ifaceName, primary string, siblings []
 	r.Floor(rule, n, floor)
 }
 
+// ruleSharedIter — R-SIB/iter: the iterator a map type returns decides what its enumeration yields. Two implementations of
+// the map interface whose Iter methods build the same concrete iterator type enumerate with the same function; they must
+// then also look up with the same function (the same declared Lookup, e.g. one type serving two formats) — otherwise
+// enumeration and point lookup disagree for one of them by construction. Iterator types with a field of function type are
+// parameterised by their builder and decide nothing.
+func ruleSharedIter(p *Prog, r *Report, pkg, ifaceName, lookup, iter string, floor int) {
+	const rule = "R-SIB/iter"
+	iface, ok := p.Named(pkg, ifaceName).Underlying().(*types.Interface)
+	if !ok {
+		undecided("anchor: %s.%s is not an interface", pkg, ifaceName)
+	}
+	sc := p.Pkg(pkg).Types.Scope()
+	names := sc.Names()
+	sort.Strings(names)
+	type impl struct {
+		name   string
+		lookup *ssa.Function
+		pos    token.Pos
+	}
+	byIter := map[string][]impl{}
+	n := 0
+	for _, name := range names {
+		tn, ok := sc.Lookup(name).(*types.TypeName)
+		if !ok || tn.IsAlias() {
+			continue
+		}
+		nt, ok := tn.Type().(*types.Named)
+		if !ok {
+			continue
+		}
+		var recv types.Type = nt
+		if !types.Implements(nt, iface) {
+			if !types.Implements(types.NewPointer(nt), iface) {
+				continue
+			}
+			recv = types.NewPointer(nt)
+		}
+		declared := map[string]bool{}
+		for i := 0; i < nt.NumMethods(); i++ {
+			declared[nt.Method(i).Name()] = true
+		}
+		if !declared[iter] || !declared[lookup] {
+			continue // inherited through an embedded map: R-SIB
+		}
+		fIter := p.SSA.LookupMethod(recv, tn.Pkg(), iter)
+		fLook := p.SSA.LookupMethod(recv, tn.Pkg(), lookup)
+		if fIter == nil || fLook == nil || fIter.Blocks == nil {
+			continue
+		}
+		// the concrete types the method boxes into its result
+		for _, b := range fIter.Blocks {
+			for _, in := range b.Instrs {
+				mi, ok := in.(*ssa.MakeInterface)
+				if !ok {
+					continue
+				}
+				itn := namedOf(mi.X.Type())
+				if itn == nil || itn.Obj().Pkg() != tn.Pkg() {
+					continue
+				}
+				// an iterator that carries a function is parameterised by the map that builds it: what it yields is
+				// not decided by its type (the remapping iterators)
+				if st, ok := itn.Underlying().(*types.Struct); ok {
+					param := false
+					for i := 0; i < st.NumFields(); i++ {
+						if _, isFn := st.Field(i).Type().Underlying().(*types.Signature); isFn {
+							param = true
+						}
+					}
+					if param {
+						continue
+					}
+				}
+				n++
+				byIter[itn.Obj().Name()] = append(byIter[itn.Obj().Name()], impl{name, fLook, tn.Pos()})
+			}
+		}
+	}
+	var its []string
+	for k := range byIter {
+		its = append(its, k)
+	}
+	sort.Strings(its)
+	for _, it := range its {
+		key := pkg + "." + it
+		r.Instance(rule, key)
+		impls := byIter[it]
+		bad := ""
+		for _, x := range impls[1:] {
+			if x.lookup != impls[0].lookup {
+				bad = fmt.Sprintf("%s and %s enumerate through %s and look up through different functions", impls[0].name, x.name, it)
+			}
+		}
+		r.Check(bad == "", rule, key, p.Pos(impls[0].pos), fmt.Sprintf("the %d map type(s) enumerating through %s look up through one function", len(impls), it)+pref(bad))
+	}
+	r.Floor(rule, n, floor)
+}
+
 // ruleCoverageSource: the coverage builders are fed with the cmap object the face uses.
 func ruleCoverageSource(p *Prog, r *Report) {
 	const rule = "R-COV"
@@ -182,6 +280,8 @@ func runC11(p *Prog, r *Report) {
 		"R-COV: both coverage builders of fontscan are fed with the cmap the face uses: Font.Cmap itself, respectively the result of font.ProcessCmap(tables.ParseCmap(raw), page), the constructor NewFont stores into Font.Cmap; the font page argument of the scanner is (Os2).FontPage() read on the edge where ParseOs2 succeeded.",
 		"R-TAB: ScriptRanges sorted and disjoint (precondition of the merge in scriptsFromRanges).")
 	ruleSibling(p, r, "font", "Cmap", "Lookup", []string{"Iter"}, 3)
+	r.Explain = append(r.Explain, "R-SIB/iter: two Cmap implementations whose Iter methods build the same concrete iterator type have the same Lookup function: the iterator decides what the enumeration yields, so sharing it between formats whose lookups differ (format 13 is many-to-one, format 12 is not) makes one of them disagree with itself.")
+	ruleSharedIter(p, r, "font", "Cmap", "Lookup", "Iter", 5)
 	ruleCoverageSource(p, r)
 	le := newLitEval(p)
 	ruleSortedRanges(p, r, le, "language", "ScriptRanges", "Start", "End", 900)
@@ -191,4 +291,5 @@ func runC11(p *Prog, r *Report) {
 
 func controlsC11(cp *Prog, r *Report) {
 	expectControl(r, "R-SIB", func(cr *Report) { ruleSibling(cp, cr, "sib", "Map", "Lookup", []string{"Iter"}, 2) }, "sib.remapBad")
+	expectControl(r, "R-SIB/iter", func(cr *Report) { ruleSharedIter(cp, cr, "sib", "Map", "Lookup", "Iter", 3) }, "sib.seqIter")
 }
